@@ -63,8 +63,12 @@ import Duckling.Lemmas.EvalGroup
                                  Guard of these three: the model's own evaluation of `t` does not end in its "recursion fuel ran out" answer
                                  (`Outcome.isFuel`; the fuel is 3·length+10 and no input is known to exhaust it, but sufficiency for arbitrary
                                  text is not proved).
-                                 What the scanner theorems still leave out: signed and decimal literals, names beginning with T/F inside compound
-                                 expressions — correspondence and the reference-evaluator oracle there (`partial` in that respect).
+  * **signed and decimal literals** (`Lemmas/LexNum`): a leaf may also be a literal `[-]digits[.digits]` (`Atom.lit`): the number class
+                                 takes a leading `-` (token still open), digits close it, the first `.` makes it a decimal, the first character
+                                 that is neither digit nor dot ends it unconsumed — `C04_lex_expr` / `C04_expr_value` / `C04_group_value` cover
+                                 such leaves; `C04_neg_literal_value`: `-ddd` is the integer −ddd (an integer, not a float: the `fix:`).
+                                 What the scanner theorems still leave out: names beginning with T/F inside compound expressions (alone they are
+                                 `C20_readable_tf`) — correspondence and the reference-evaluator oracle there (`partial` in that respect).
 -/
 namespace Duckling.Props.C04
 open Duckling
@@ -380,5 +384,18 @@ example : GoodAtom [] (.num "2".toList) ∧ GoodExprRest [] [([], "*".toList, .m
   simp only [List.mem_cons, List.mem_nil_iff, or_false] at ht
   subst ht
   exact ⟨by simp [AllSp], by decide, by simp [AllSp], by unfold GoodGrp; decide, fun nm h => by cases h⟩
+
+/-- a negative integer literal denotes the negative integer (an integer, not a float) -/
+theorem C04_neg_literal_value (ds : Str) (hds : GoodNum ds) : numberValue ('-' :: ds) = .ok (.int (-(digitsVal ds))) := by
+  obtain ⟨hne, hall⟩ := hds
+  have he : ds.isEmpty = false := by cases ds <;> simp_all
+  simp [numberValue, he, hall]
+
+/-- non-vacuity for literals: `-12`, `2.5`, `7.` are literals; `2.5` is the exact dyadic 5/2 -/
+example : GoodLit "12".toList none ∧ litText true "12".toList none = "-12".toList ∧
+    GoodLit "2".toList (some "5".toList) ∧ litText false "2".toList (some "5".toList) = "2.5".toList ∧
+    (match numberValue "2.5".toList with | .ok (.flt 5 1) => true | _ => false) = true := by
+  refine ⟨⟨by decide, by decide, fun f h => by cases h⟩, by decide, ⟨by decide, by decide, fun f h => ?_⟩, by decide, by decide⟩
+  cases h; decide
 
 end Duckling.Props.C04
